@@ -1,4 +1,7 @@
 CONSTANTS
+  Mode = "pieces"
+  PreSet = {}
+  MaxChars = 0
   Pieces = {0, 1, 27, 60, 67, 68, 100, 127, 128, 129, 300}
   MaxPieces = 3
 INIT Init
